@@ -357,6 +357,14 @@ pub async fn record_converge() {
             put(&a2, &mut e, KS2, base + 5, b"only here").await;
             del_many(&b2, &mut e, KS2, vec![base + 1, base + 9]).await;
             put(&a2, &mut e, KS2, base + 9, b"after its delete").await;
+            // the same bytes written again after another node deleted (or rewrote) the document, before the writer can
+            // have heard of it: the second write is the last writer
+            put(&a, &mut e, KS, base + 10, b"same bytes").await;
+            del(&b, &mut e, KS, base + 10).await;
+            put(&a, &mut e, KS, base + 10, b"same bytes").await;
+            put_many(&a, &mut e, KS, vec![(base + 11, b"same bytes, bulk"), (base + 12, b"other")]).await;
+            put(&b, &mut e, KS, base + 11, b"rewritten elsewhere").await;
+            put_many(&a, &mut e, KS, vec![(base + 11, b"same bytes, bulk"), (base + 12, b"other")]).await;
             // third node: writes in the second keyspace, then deletes the same ids in the first one
             put(&c2, &mut e, KS2, base + 7, b"seven, second keyspace").await;
             put_many(&c2, &mut e, KS2, vec![(base + 3, b"three, second keyspace"), (base + 2, b"two, second keyspace")]).await;
